@@ -262,6 +262,10 @@ impl Builder {
             if active {
                 self.expect.insert(format!("h_{}", h));
             }
+        } else if r == 8 {
+            // text that would open a comment if it were not inside a string literal
+            let t = ["/*", "src/*.c", "a /* b", "//*"][(id % 4) as usize];
+            self.lines.push(format!("const char sx_{}[] = \"{}\";", id, t));
         } else if r == 6 && !active {
             self.lines.push("#error must not fire".into());
         } else if r == 7 && active && self.rng.chance(1, 6) {
@@ -284,6 +288,27 @@ impl Builder {
 pub fn random_case(idx: u64) -> Case {
     let mut b = new_builder("C07rand", idx, 6);
     let pl = b.lines.len();
+    if b.rng.chance(1, 20) {
+        // more than 100 macros (the macro tables are chunked by 100), then a macro that is
+        // #undef'd and defined again with another value and tested
+        let nf = b.rng.range(97, 130);
+        for i in 0..nf {
+            b.lines.push(format!("#define FILL{} {}", i, i));
+        }
+        let (old, new) = if b.rng.chance(1, 2) { (0, 1) } else { (1, 0) };
+        b.lines.push(format!("#define MODE {}", old));
+        b.lines.push("#undef MODE".into());
+        b.lines.push(format!("#define MODE {}", new));
+        b.lines.push("#if MODE".into());
+        b.lines.push("char m_mode_set;".into());
+        b.lines.push("#else".into());
+        b.lines.push("char m_mode_clear;".into());
+        b.lines.push("#endif".into());
+        b.all_markers.insert("m_mode_set".into());
+        b.all_markers.insert("m_mode_clear".into());
+        b.expect.insert(if new == 1 { "m_mode_set".into() } else { "m_mode_clear".into() });
+        b.states_seen.insert("more than 100 macros".into());
+    }
     let ng = b.rng.range(1, 4);
     for _ in 0..ng {
         let mut budget: Vec<u64> = Vec::new();
